@@ -742,12 +742,12 @@ func classifyDup(items []item, surplus []bool, family string, v view) []string {
 		}
 		var ks []string
 		for _, k := range []string{"heading", "list", "paragraph"} {
-			switch {
-			case cnt[k] == 1:
+			if cnt[k] > 0 {
 				ks = append(ks, k)
-			case cnt[k] > 1:
-				ks = append(ks, k+"-twice")
 			}
+		}
+		if len(ks) == 1 {
+			ks[0] += "-twice" // repeated within elements of one kind
 		}
 		classes["in-"+strings.Join(ks, "-and-")] = true
 	}
